@@ -259,4 +259,80 @@ theorem trace_only_extends (on : Bool) (w : World (σ × List (TraceLabel × S))
     exact solveT_inv (traced I snap true false) o t _ hP n _
       ⟨[(TraceLabel.start, snap w.user.1 t)], by simp [withUser, recordSnap]⟩
 
+/-! ## Non-vacuity (review): every hypothesis of `trace_shape_solved` / `trace_shape_failed` / `traj_traced` /
+`cv_traced` at the C02 example model (a pass moves the state one step towards 3: converges at pass 4) -/
+
+example : (tracedSolveT C02.exI (fun u _ => u) true false { maxIter := 10 } 5 2
+      ⟨(0, []), List.replicate 5 .unsolved, List.replicate 5 (-1)⟩).1.user
+    = (3, [(.start, 0), (.before, 0), (.iter 0, 0), (.iter 1, 1), (.iter 2, 2), (.iter 3, 3), (.iter 4, 3),
+           (.«end», 3)]) := by
+  rw [trace_shape_solved C02.exI (fun u _ => u) { maxIter := 10 } 5 2 [] 0 _ _
+    (by unfold Accepted Feasible; decide) rfl 4 (by decide) (by decide) (fun _ _ => rfl) (fun _ _ => rfl)
+    (by
+      intro i h0 h4
+      have : i = 1 ∨ i = 2 ∨ i = 3 := by omega
+      rcases this with rfl | rfl | rfl <;> (unfold Good; decide))
+    (by unfold Good; decide) rfl]
+  decide
+
+-- a failed period (`max_iter = 3`, period -1): `start, before, 0, 1, 2, 3`, no `end`
+example : (tracedSolveT C02.exI (fun u _ => u) true false { maxIter := 3 } 5 (-1)
+      ⟨(0, [(.«end», 9)]), List.replicate 5 .unsolved, List.replicate 5 (-1)⟩).1.user
+    = (3, [(.«end», 9), (.start, 0), (.before, 0), (.iter 0, 0), (.iter 1, 1), (.iter 2, 2), (.iter 3, 3)]) := by
+  rw [trace_shape_failed C02.exI (fun u _ => u) { maxIter := 3 } 5 (-1) [(.«end», 9)] 0 _ _
+    (by unfold Accepted Feasible; decide) rfl (fun _ _ => rfl) (fun _ _ => rfl)
+    (by
+      intro i h0 h3
+      have h3' : i ≤ 3 := h3
+      have : i = 1 ∨ i = 2 ∨ i = 3 := by omega
+      rcases this with rfl | rfl | rfl <;> (unfold Good; decide))]
+  decide
+
+-- traj_traced / cv_traced: `hev` with three real passes
+example : traj (traced C02.exI (fun u _ => u) true false) {} 2 (0, [(.iter 0, 0)]) 3 =
+    (3, [(.iter 0, 0), (.iter 1, 1), (.iter 2, 2), (.iter 3, 3)]) := by
+  rw [traj_traced C02.exI (fun u _ => u) {} 2 0 _ 3 (fun _ _ => rfl)]; decide
+example : cv (traced C02.exI (fun u _ => u) true false) {} 2 (0, []) 0 3 = 3 := by
+  rw [cv_traced C02.exI (fun u _ => u) {} 2 0 [] 0 3 (fun _ _ => rfl)]; decide
+
+/-! ### Tracing a multi-period `solve()` -/
+
+/-- `solve()` of a tracer-extended model over a list of periods: the traced single-period solve of each period in
+    turn; the first exception stops the run (mirrors `solveList`). -/
+def tracedSolveList (on reset : Bool) :
+    List Nat → World (σ × List (TraceLabel × S)) → List Nat → List Bool →
+      World (σ × List (TraceLabel × S)) × SolveResult
+  | [], w, ps, fs => (w, .ok ps.reverse fs.reverse)
+  | p :: rest, w, ps, fs =>
+    match tracedSolveT I snap on reset o n (p : Int) w with
+    | (w', .ret b) => tracedSolveList on reset rest w' (p :: ps) (b :: fs)
+    | (w', r) => (w', .err r ps.reverse fs.reverse)
+
+/-- **Non-interference for `solve()`.** Forgetting the trace, a traced multi-period solve (tracing on or off, with or
+    without reset) visits the same periods, leaves the same values, statuses and iteration counts, and ends with the same
+    result (positions, flags, or the same exception at the same period) as the untraced `solve()`. -/
+theorem trace_noninterference_solve (on reset : Bool) :
+    ∀ (ps : List Nat) (w : World (σ × List (TraceLabel × S))) (acc : List Nat) (fs : List Bool),
+      ((tracedSolveList I snap o n on reset ps w acc fs).1.map Prod.fst,
+       (tracedSolveList I snap o n on reset ps w acc fs).2)
+        = solveList I o n ps (w.map Prod.fst) acc fs := by
+  intro ps
+  induction ps with
+  | nil => intro w acc fs; rfl
+  | cons p rest ih =>
+    intro w acc fs
+    have h := trace_noninterference I snap o n (p : Int) on reset w
+    unfold tracedSolveList solveList
+    rcases ht : tracedSolveT I snap on reset o n (p : Int) w with ⟨w', r⟩
+    rw [ht] at h
+    simp only at h
+    rw [← h]
+    cases r with
+    | ret b => exact ih w' _ _
+    | valueError => rfl
+    | indexError => rfl
+    | solutionError c => rfl
+    | nonConvergence => rfl
+    | badErrorsArg => rfl
+
 end Fsic.C17
